@@ -495,7 +495,12 @@ func ToPairAlign(samIn, ref io.Reader, outpath string, wrap int, trimStart int, 
 
 	go groupSamRecords(samIn, cSH, cSR, cReadDone, cErr)
 
-	_ = <-cSH
+	// wait for the header, or for the error if the sam file can't be read at all
+	select {
+	case <-cSH:
+	case err := <-cErr:
+		return err
+	}
 
 	go writePairwiseAlignment(outpath, wrap, cPairTrim, cWriteDone, cErr, omitRef)
 
